@@ -575,6 +575,14 @@ class Interp:
             if rv["kind"] in ("IntToInt", "Transmute") or "Pointer" in rv["kind"] or "Unsize" in rv["kind"]:
                 if a[0] == "ch":
                     return [(st, I(a[1]))]
+                if rv["kind"] == "IntToInt" and a[0] in ("sym", "expr"):
+                    # a narrowing cast of an unknown value keeps only the low bits: it is NOT the same value any more
+                    # (`c as u8` of a char equals the character only below 0x100)
+                    W = {"u8": 8, "i8": 8, "u16": 16, "i16": 16, "u32": 32, "i32": 32, "char": 32, "u64": 64, "i64": 64, "usize": 64, "isize": 64, "u128": 128, "i128": 128}
+                    p = rv["a"].get("copy") or rv["a"].get("move")
+                    src = self.body.locals[p["local"]]["ty"] if p and not p["proj"] else None
+                    if src in W and rv.get("ty") in W and W[rv["ty"]] < W[src] and W[rv["ty"]] <= 16:
+                        return [(st, ("expr", "Trunc%d" % W[rv["ty"]], a, I(0)))]
                 return [(st, a)]
             return [(st, SYM("cast:%s" % (site,)))]
         if k == "discr":
